@@ -10,23 +10,28 @@ from vlib import runner
 
 ID = "C03"
 MODULE = "PotasscoVerif.Props.C03"
-EXTRA_MODULES = ["PotasscoVerif.Lemmas.BufferedStream"]
+EXTRA_MODULES = ["PotasscoVerif.Lemmas.BufferedStream", "PotasscoVerif.Lemmas.AspifLang", "PotasscoVerif.Props.C03b", "PotasscoVerif.Props.C03c"]
 THEOREMS = ["PotasscoVerif.C03.C03_number_exact", "PotasscoVerif.C03.C03_reject_out_of_range", "PotasscoVerif.C03.C03_field_bounds",
-            "PotasscoVerif.C03.C03_error_once", "PotasscoVerif.Decimal.matchInt_token", "PotasscoVerif.BufferedStream.satVal_exact"]
-PARTIAL = {"C03_sound/C03_complete/C03_line_bound": "the line bound 1..lines and soundness/completeness of the whole reader against a declarative grammar is not proved; acceptance is decided "
-           "by the correspondence run against the model and by the independent reference acceptor"}
+            "PotasscoVerif.C03.C03_error_once", "PotasscoVerif.Decimal.matchInt_token", "PotasscoVerif.BufferedStream.satVal_exact",
+            "PotasscoVerif.C03.C03_line_bound", "PotasscoVerif.C03.C03_complete", "PotasscoVerif.C03.C03_sound", "PotasscoVerif.C03.C03_rejects",
+            "PotasscoVerif.C03.C03_strict_lenient", "PotasscoVerif.C03.Spec.directive", "PotasscoVerif.C03.Spec.theory",
+            "PotasscoVerif.C03.stepLoop_sound", "PotasscoVerif.C03.stepLoop_complete", "PotasscoVerif.C03.header_sound", "PotasscoVerif.C03.header_complete"]
+PARTIAL = {}
 BSIZES = (16, 17, 4096)
 RULE = ("grammar-directed texts: a valid program rendered with random layout (blank, tab, LF, CR, CRLF, several), '+' signs and leading zeros, then at most one mutation "
         "(a numeric field replaced by max+1, min-1, 2^32+-1, 2^63+-1, 2^64+1, 10^40, 0, -1, value+-1; truncation after any token; token deleted or duplicated; header variants); "
         "distinct = distinct texts; non-trivial = at least 8 tokens")
 TRUSTED = ["props/aspif_ref.py is the executable reading of 'well-formed aspif 1.0' used as oracle"]
 ASSUMPTIONS = ["texts without NUL bytes"]
-TECHNIQUE = "Lean 4 theorems on the reader model (exact-or-rejected numbers for digit strings of any length; single error with bounded line) + differential correspondence with AspifInput + reference acceptor oracle"
-LEVEL_TEXT = ("C03_number_exact / C03_reject_out_of_range: for a digit string of ANY length the reader model's field matchers either return exactly the denoted number or fail — "
-              "never another value (64-bit saturation + range check, satVal_exact); C03_error_once: a rejection is one error value (the line bound 1..lines is checked on the implementation by the oracle, not yet proved). "
-              "'Accepts exactly the well-formed texts' is not yet a theorem against a declarative grammar: it is decided by reader model == real AspifInput on generated and mutated texts "
-              "and by an independent reference acceptor on the implementation.")
-LEVEL_NOTE = ("Partial proof + correspondence; model==code on ~3k (quick) / 100k (thorough) texts x 3 buffer sizes. Trusted: Lean kernel+axioms, reference acceptor, harness.")
+TECHNIQUE = "Lean 4 theorems on the reader model (soundness and completeness against a declarative grammar of aspif in every layout; exact-or-rejected numbers for digit strings of any length; reported line within 1..lines) + differential correspondence with AspifInput + reference acceptor oracle"
+LEVEL_TEXT = ("Props/C03c.lean: the aspif grammar `Prog` as languages (sets of (word, value) pairs) built from number tokens, strings, sequencing, repetition and case distinction (no stream, look-ahead, fuel or error plumbing), "
+              "in a strict reading (whitespace-separated tokens in ANY layout, '+' signs, leading zeros, digit strings of any length) and a lenient one (what the reader also tolerates: tokens glued to a sign, any one character as "
+              "string separator, a lone CR after the header). C03_complete: every strict program text is accepted and exactly the denoted directives are delivered in order (weight 0 omitted); C03_sound: whatever the reader accepts "
+              "(NUL-free text) is a lenient program text denoting exactly the delivered directives — every delivered number is the written one, inside its field, every count matched; C03_rejects: everything outside the grammar is rejected; "
+              "C03_strict_lenient. Props/C03b.lean: C03_line_bound — a rejection reports a line between 1 and 1 + the number of line ends (LF, CR, CRLF). C03_number_exact / C03_reject_out_of_range: for a digit string of ANY "
+              "length the field matchers either return exactly the denoted number or fail (64-bit saturation + range check, satVal_exact); C03_error_once. In addition reader model == real AspifInput on generated and "
+              "mutated texts and an independent reference acceptor on the implementation.")
+LEVEL_NOTE = ("Proof (grammar soundness/completeness, line bound, numbers) + correspondence; model==code on ~3k (quick) / 100k (thorough) texts x 3 buffer sizes. Trusted: Lean kernel+axioms, reference acceptor, harness.")
 
 SEPS = [b" ", b" ", b" ", b"  ", b"\t", b"\n", b"\r\n", b"\r", b" \n"]
 
